@@ -247,7 +247,8 @@ func init() {
 		rule("R12-request-asserts", ruleRequestAsserts).
 		rule("R6-cas", ruleCAS("SearchPromises")).
 		rule("R6-response-shapes", ruleRespProvenance("SearchPromisesResponse", "SearchSchedulesResponse")).
-		rule("R9-cursor-carry", ruleCursorCarry)
+		rule("R9-cursor-carry", ruleCursorCarry).
+		rule("R13-definitions", ruleSmallDefinitions)
 }
 
 func init() {
@@ -269,7 +270,8 @@ func init() {
 		rule("R12-union-literals", ruleUnionLiterals).
 		rule("R7-decision-tables", ruleTables(tblReadSchedule, tblHeartbeatLocks, tblHeartbeatTasks, tblSearchSchedules, tblAcquire, tblRelease, tblDeleteSchedule)).
 		rule("R16-converter-complete", ruleConverterCompleteness).
-		rule("R16-zero-value-locals", ruleZeroValueLocals)
+		rule("R16-zero-value-locals", ruleZeroValueLocals).
+		rule("R13-definitions", ruleSmallDefinitions)
 }
 
 func init() {
